@@ -199,21 +199,39 @@ def coq_make(targets, timeout=1500):
             return False, (e.stdout or '') + '\nTIMEOUT after %ds' % timeout
 
 
-FORBIDDEN = re.compile(r'\b(Admitted|admit|Axiom|Parameter|Conjecture|Unset Guard|bypass_check|Admit Obligations|Unset Positivity|Unset Universe)\b')
+FORBIDDEN = re.compile(r'\b(Admitted|admit|Axioms?|Parameters?|Conjectures?|Unset Guard|bypass_check|Admit Obligations|Unset Positivity|Unset Universe|type-in-type|impredicative-set|Guard Checking|Positivity Checking|Universe Checking)\b')
+SECTION_ONLY = re.compile(r'^\s*(Local\s+|Global\s+|#\[[^\]]*\]\s*)?(Variables?|Hypothes[ie]s|Context)\b')
 
 
 def coq_hygiene():
-    """grep the development for forbidden constructs.  Returns list of offending lines."""
+    """grep the development for forbidden constructs (and for Variable/Hypothesis/Context outside a Section, which
+    declare axioms).  Returns list of offending lines."""
     bad = []
     for root, dirs, fs in os.walk(COQ):
         dirs[:] = [d for d in dirs if d not in ('scratch', 'scratch_tmp') and not d.startswith('.')]
         for f in fs:
             if f.endswith('.v') and not f.endswith('_wip.v'):
                 p = os.path.join(root, f)
-                for n, l in enumerate(open(p, errors='replace'), 1):
-                    s = re.sub(r'\(\*.*?\*\)', '', l)
-                    if FORBIDDEN.search(s):
+                src = open(p, errors='replace').read()
+                # blank out comments keeping the line structure
+                src = re.sub(r'\(\*.*?\*\)', lambda m: re.sub(r'[^\n]', ' ', m.group(0)), src, flags=re.S)
+                depth = 0
+                for n, l in enumerate(src.splitlines(), 1):
+                    if FORBIDDEN.search(l):
                         bad.append('%s:%d: %s' % (os.path.relpath(p, COQ), n, l.strip()))
+                    if re.match(r'^\s*Section\s+\w+', l):
+                        depth += 1
+                    elif re.match(r'^\s*End\s+\w+', l) and depth > 0:
+                        depth -= 1
+                    elif depth == 0 and SECTION_ONLY.match(l):
+                        bad.append('%s:%d: outside a Section: %s' % (os.path.relpath(p, COQ), n, l.strip()))
+    for mk in ('_CoqProject', 'Makefile.coq.conf'):
+        try:
+            t = open(os.path.join(COQ, mk)).read()
+            if re.search(r'type-in-type|impredicative-set|-vos|-vok', t):
+                bad.append('%s: forbidden coqc flag' % mk)
+        except FileNotFoundError:
+            pass
     return bad
 
 
